@@ -45,3 +45,7 @@ pub use handles::{AsyncCache, Cache};
 pub use listener::{EvictionListener, EvictionReason};
 pub use metrics::MetricsSnapshot;
 pub use runtime::TaskSpawner;
+
+/// Verification hook H3: virtual clock (see `time::verif`); absent from normal builds.
+#[cfg(excsn_fibre_verif)]
+pub use time::verif;
